@@ -1185,10 +1185,24 @@ func ruleC16SkipPrefix(c *Ctx) {
 	}
 	// a comparison between an element of field.Index and an element of the skip path
 	found := false
-	core.EachInstr(m.fn, func(i ssa.Instruction) {
+	for _, fi := range c.familyInstrs(m.fn) {
+		i := fi.I
+		// a whole-slice comparison of (a prefix of) field.Index with the skip path
+		if call, ok := i.(*ssa.Call); ok {
+			switch core.CalleeKey(&call.Call) {
+			case "slices.Equal", "slices.Compare", "slices.EqualFunc", "reflect.DeepEqual":
+				for _, a := range call.Call.Args {
+					for _, src := range append(traceSources(a), a) {
+						if c.mentionsNamedField(src, "Index", 5) {
+							found = true
+						}
+					}
+				}
+			}
+		}
 		bo, ok := i.(*ssa.BinOp)
 		if !ok || (bo.Op != token.NEQ && bo.Op != token.EQL) {
-			return
+			continue
 		}
 		isIdxElem := func(v ssa.Value) bool {
 			ld, ok := v.(*ssa.UnOp)
@@ -1220,7 +1234,7 @@ func ruleC16SkipPrefix(c *Ctx) {
 		if (isIdxElem(bo.X) && isOther(bo.Y)) || (isIdxElem(bo.Y) && isOther(bo.X)) {
 			found = true
 		}
-	})
+	}
 	c.R.Check(found, rule, "promoted-fields-of-override:index-prefix", c.P.Pos(m.fn.Pos()), "promoted fields of an overridden embedded struct are recognised by comparing their index path with the embedded field's, element by element", "the promoted fields of an overridden embedded struct are no longer recognised by an element-wise comparison of index paths (e.g. only by depth): fields promoted from a second, ordinary embedded struct would be dropped")
 }
 
